@@ -69,6 +69,8 @@ func runC05(p *Program, r *Report) {
 	checkJpegMarkerTable(p, r)
 	checkFormatConst(p, r)
 	rd1Scan(p, r, "C05.fullread")
+	checkLoadPassThrough(p, r)
+	r.Floor("C05.load", 3)
 	r.Floor("C05.fullread", 1)
 	r.Floor("C05.fields", 15)
 	r.Floor("C05.guards", 6)
@@ -493,6 +495,8 @@ func checkJpegFields(p *Program, r *Report) {
 	r.Check(soiOK && n > 0, "C05.guards", "jpeg SOI first", pos, "the first segment must be SOI (0xD8)", "a success path does not require the stream to begin with SOI")
 	r.Check(n > 0, "C05.assigned", "jpegmeta", pos, fmt.Sprintf("all %d success paths carry width, height and bit depth of one SOF segment", n), "no success path")
 
+	checkJpegScanOn(p, r, pos)
+
 	// readSegment consumes exactly DataLength bytes with a full-read primitive
 	rsFn := p.Func("meta/jpegmeta", "readSegment")
 	rm := p.Func("meta/jpegmeta", "readMarker")
@@ -607,6 +611,155 @@ func checkJpegMarkerTable(p *Program, r *Report) {
 		}
 		r.Check(good, "C05.dispatch", key, p.FnPos(mm), arm, why)
 	}
+}
+
+// checkLoadPassThrough: what the parsers establish reaches the caller. Each
+// format loader returns, on every path, exactly the (metadata, error) pair
+// its parser returned — no later step replaces, filters or re-judges it — and
+// autometa.Load returns the chosen loader's result verbatim (the C19 rule,
+// re-evaluated here as a premise).
+func checkLoadPassThrough(p *Program, r *Report) {
+	for _, short := range formatLoaders {
+		L := p.Func(short, "Load")
+		key := short + ".Load"
+		if L == nil || len(L.Params) != 1 {
+			r.Undecide("C05.load", key, "-", "anchor function Load(r io.Reader) not found")
+			continue
+		}
+		r.SawFn(shortFn(L))
+		_, outs, _, _ := runLoader(p, L)
+		good, why := true, ""
+		n := 0
+		for _, o := range outs {
+			if o.Kind != "return" {
+				good, why = false, "a path of the loader ends in "+o.Kind+" at "+p.Pos(o.Pos)+" "+o.Why
+				continue
+			}
+			n++
+			var parser *Event
+			np := 0
+			for k := range o.St.events {
+				ev := &o.St.events[k]
+				if ev.Kind == "call" && ev.Callee != nil && isPrismFn(ev.Callee) {
+					if tp, ok := ev.Res.(Tuple); ok && len(tp) == 2 {
+						parser = ev
+						np++
+					}
+				}
+			}
+			tp, _ := o.Ret.(Tuple)
+			if np != 1 || len(tp) != 3 {
+				good, why = false, fmt.Sprintf("the path returning at %s runs %d parsers (exactly one expected)", p.Pos(o.Pos), np)
+				continue
+			}
+			res := parser.Res.(Tuple)
+			if valKey(tp[0]) != valKey(res[0]) || valKey(tp[2]) != valKey(res[1]) {
+				good, why = false, fmt.Sprintf("the path returning at %s yields (%s, _, %s), not the pair %s returned: metadata the parser extracted can be withheld or altered after the fact", p.Pos(o.Pos), trunc(valKey(tp[0]), 80), trunc(valKey(tp[2]), 80), parser.Fn)
+			}
+		}
+		r.Check(good && n > 0, "C05.load", key, p.FnPos(L), fmt.Sprintf("all %d paths return the parser's (metadata, error) pair unchanged", n), why)
+	}
+	sub := NewReport("C19", "proof")
+	checkAutoLoader(p, sub, "C19")
+	for _, ob := range sub.Obls {
+		ob.Rule = "C05.premise-" + ob.Rule
+		ob.Key = "C05.premise-" + ob.Key
+		r.Obls = append(r.Obls, ob)
+	}
+	for f := range sub.Functions {
+		r.SawFn(f)
+	}
+}
+
+// checkJpegScanOn: the segment loop keeps scanning until the frame header.
+// On every explored path (APP2/ICC handling included) that ends WITHOUT
+// dimensions although no SOF segment was seen, the last segment read must be
+// the reason: its read failed, it was not SOI at the start, or it is SOS/EOI.
+// A path that gives up after an APPn/other segment (whatever its content)
+// loses the dimensions of a well-formed file whose SOF comes later.
+func checkJpegScanOn(p *Program, r *Report, pos string) {
+	pr := jpegRun(p, true)
+	if len(pr.Stuck) > 0 {
+		r.Undecide("C05.dispatch", "jpeg scan reaches SOF", p.Pos(pr.Stuck[0].Pos), "parser not extractable: "+pr.Stuck[0].Why)
+		return
+	}
+	segNo := func(k string) int {
+		i := strings.LastIndex(k, "ReadSegment@")
+		if i < 0 {
+			return -1
+		}
+		n := -1
+		fmt.Sscanf(k[i+len("ReadSegment@"):], "%d", &n)
+		return n
+	}
+	good, why := true, ""
+	n := 0
+	for _, o := range pr.Outs {
+		if o.Kind != "return" {
+			continue
+		}
+		if md := mdOf(o); md.OK && md.Width != nil && !md.Width.Equal(formInt(0)) {
+			continue // dimensions reported
+		}
+		n++
+		last := -1
+		typeOf := map[int]int64{}
+		failed := map[int]bool{}
+		errSeen, succeeded := map[int]bool{}, map[int]bool{}
+		for _, c := range o.St.conds {
+			k := c.Key()
+			sn := segNo(k)
+			if sn < 0 {
+				continue
+			}
+			if sn > last {
+				last = sn
+			}
+			if strings.Contains(k, ".Type(") && c.Op == "==" {
+				if b, ok := c.B.(*Form); ok {
+					if cv, isC := b.ConstInt(); isC {
+						typeOf[sn] = cv
+					}
+				}
+			}
+			// the segment's error result: decided to be nil (read succeeded) or anything else
+			// (`err != nil`, `err == io.EOF`, …: the read failed)
+			if strings.Contains(k, fmt.Sprintf("ReadSegment@%d#1", sn)) {
+				errSeen[sn] = true
+				if c.Op == "==" && strings.Contains(k, "nil-error") {
+					succeeded[sn] = true
+				}
+			}
+		}
+		for sn := range errSeen {
+			if !succeeded[sn] {
+				failed[sn] = true
+			}
+		}
+		sawSOF := false
+		for _, t := range typeOf {
+			if t == 0xc0 || t == 0xc2 {
+				sawSOF = true
+			}
+		}
+		if sawSOF || last < 0 {
+			continue
+		}
+		t, known := typeOf[last]
+		switch {
+		case failed[last]:
+		case last == 0: // the first segment is not SOI (or its read failed)
+		case known && (t == 0xda || t == 0xd9):
+		default:
+			good = false
+			tail := condKeys(o)
+			if len(tail) > 300 {
+				tail = "…" + tail[len(tail)-300:]
+			}
+			why = fmt.Sprintf("a path returns without dimensions at %s although its last segment (#%d) was read successfully and is neither SOS nor EOI, and no SOF was seen yet: a well-formed file whose frame header follows loses its dimensions [path: %s]", p.Pos(o.Pos), last, tail)
+		}
+	}
+	r.Check(good && n > 0, "C05.dispatch", "jpeg scan reaches SOF", pos, fmt.Sprintf("all %d explored paths without dimensions end at a failed read, a missing SOI, SOS or EOI — never after an APPn/other segment", n), why)
 }
 
 func (e *Engine) beU16(off *Form) *Form {
